@@ -273,3 +273,31 @@ Example tx_example :
   let s := tx_run (tx_new 4) [ToWrite [1;2;3]; ToWrite [4;5;6]; ToTruncate 2; ToGrow 16; ToWrite [7;8]] in
   ring s = [3;4;7;8] /\ cap s = 8 /\ g_removed s = 2 /\ g_written s = [1;2;3;4;7;8].
 Proof. vm_compute. repeat split. Qed.
+
+(* growth keeps the content: the predicate holds of every model trace *)
+Lemma grow_scan_model : forall ops s,
+  c19_grow_scan (Z.of_nat (length (ring s))) (ring_hashZ (ring s)) (grow_view (tx_trace s ops)) = true.
+Proof.
+  induction ops as [|o ops IH]; intro s; [reflexivity|].
+  cbn [tx_trace]. destruct (tx_step s o) as [[s1 out] w] eqn:E.
+  cbn [grow_view map to_out to_ring c19_grow_scan]. fold (grow_view (tx_trace s1 ops)).
+  rewrite IH, andb_true_r.
+  destruct out; try reflexivity.
+  destruct o; cbn [tx_step] in E;
+    try (destruct (writer_dropped s); [discriminate|]);
+    try (destruct (poll_write s buf) as [[? ?] ?]; discriminate);
+    try (destruct (poll_flush s) as [[? ?] ?]; discriminate);
+    try (destruct (poll_shutdown s) as [[? ?] ?]; discriminate);
+    try (destruct (drop_writer s) as [? ?]; discriminate);
+    try (destruct (mark_vsock_closed s) as [? ?]; discriminate);
+    try (destruct (truncate_front s count) as [? ?]; discriminate);
+    try (destruct (wake_writer s) as [? ?]; discriminate);
+    try discriminate.
+  destruct (grow s max_size) as [s2 r2] eqn:G. injection E as <- _ _.
+  assert (Hr : ring s2 = ring s).
+  { unfold grow in G. destruct (max_size <=? cap s); injection G as <- _; reflexivity. }
+  rewrite Hr, !Z.eqb_refl. reflexivity.
+Qed.
+
+Lemma model_trace_c19_grow_ok initial ops : c19_grow_ok (grow_view (tx_trace (tx_new initial) ops)) = true.
+Proof. unfold c19_grow_ok. exact (grow_scan_model ops (tx_new initial)). Qed.
